@@ -133,6 +133,32 @@ def regression_cases():
     return [dict(id=800000 + i, events=[dict(e) for e in evs], profile="regression:" + name) for i, (name, evs) in enumerate(out)]
 
 
+def fault_cases(rng, n):
+    """Storage-fault family: writes to several databases / measurements (constant schema per measurement, so
+    that no schema-change flush interferes), crash, then a recovery during which the storage rejects every
+    Parquet write under ONE of the directories - with the REAL ArrowBuffer.FlushAll as main()'s FlushReplayed
+    hook and 8 buffer shards - then a healthy restart.  Every acknowledged row must be stored afterwards."""
+    out = []
+    dirs = [(db.decode(), m.decode()) for db in L.DBS for m in L.MEAS]
+    for i in range(n):
+        used = rng.sample(dirs, rng.randint(2, 5))
+        evs = [dict(op="start", rot=(i % 3 == 2))]
+        t = T0 + 1000 * i
+        for j in range(rng.randint(3, 6)):
+            db, m = rng.choice(used)
+            t += 7
+            if rng.random() < 0.5:
+                evs.append(_lp([_pt(m.encode(), [(b"host", b"h%d" % (j % 3))], [(b"v", ("i", j))], t)], db=db))
+            else:
+                evs.append(_msg(_col(("s", m.encode()), t, j), db=db))
+        evs += [dict(op="crash"), dict(op="start"), dict(op="recover", fail_dir=rng.choice(used if rng.random() < 0.85 else dirs))]
+        if rng.random() < 0.4:
+            evs.append(dict(op="flush"))
+        evs += [dict(e) for e in L.RESTART]
+        out.append(dict(id=700000 + i, events=evs, profile="storage-fault"))
+    return out
+
+
 FLAG_OF = {"routing-key-column": "routing_last", "legacy-key-column": "strict_keys",
            "row-replay-time-outside-us-window": "rows_no_renorm", "columnar-integer-measurement": "int_m",
            "crash-before-replayed-rows-flushed": "flush_before_delete", "mixed-int-float-column": None,
@@ -375,7 +401,7 @@ def run(res, tier, seed):
 
     n = 480 if tier == "quick" else 6000
     wit = witness_cases()
-    cases = load_corpus() + [c for _, c in wit] + regression_cases()
+    cases = load_corpus() + [c for _, c in wit] + regression_cases() + fault_cases(rng, 24 if tier == "quick" else 300)
     nfixed = len(cases)
     for i in range(n):
         cases.append(L.gen_history(rng, i, PROFILES[i % len(PROFILES)]))
@@ -412,6 +438,7 @@ def run(res, tier, seed):
         "requests": {k: sum(1 for i in supported for e in cases[i]["events"] if e["op"] == "write" and (e["req"]["kind"] if e["req"]["kind"] == "lp" else e["req"].get("shape", "msg")) == k)
                      for k in ("lp", "col", "row", "batch", "array", "nested")},
         "held_writer_lifetimes": sum(1 for i in supported for e in cases[i]["events"] if e["op"] == "start" and e.get("hold")),
+        "recoveries_under_storage_fault": sum(1 for i in supported for e in cases[i]["events"] if e["op"] == "recover" and e.get("fail_dir")),
         "rotating_lifetimes": sum(1 for i in supported for e in cases[i]["events"] if e["op"] == "start" and e.get("rot")),
         "kills_inside_recovery": sum(sum(1 for k in obs[i]["crashed"] if k) for i in supported),
         "acks": {str(k): sum(1 for i in supported for a in obs[i]["acks"] if a == k) for k in (200, 204, 400, 403, 500)},
